@@ -19,7 +19,7 @@ from ..common import rng_for, close
 
 OPTIMIZED_SHARDS = 1  # shards run once more in an interpreter started with -O (vf/run.py)
 LEVEL = "exploration"
-TECHNIQUE = "history monitor: per-instance shadow accumulator (math.fsum, two-pass moments) updated on accumulate and compared on every apply; read-only inputs"
+TECHNIQUE = "history monitor: per-instance shadow accumulator (math.fsum, two-pass moments) updated on accumulate and compared on every apply; read-only inputs; ambient-settings monitor (stateless calls repeated under -W error and np.errstate raise)"
 RULE = (
     "histories: one seeded data set (1-6 coefficients, 2-200 vectors, float32/float64/int16/int32, negative and large means with |mean|/std <= 1e3) "
     "is split and permuted in different random ways (1-D vectors, 2-D/3-D tensors along any axis) into 2-4 instances, then probed with vectors and "
